@@ -210,6 +210,26 @@ var plans = map[string]*Plan{
 			return "process-died:" + journalOp(last) + ":" + crashClass(c), "the process serving the management API died (" + c + "); last journalled request: " + last
 		},
 	},
+	"C15": {
+		Level: "exploration",
+		Rule: "four scenario kinds, cycled per worker: (a) codec - 20-60 frames with types 0..9, seq/offset/size at integer extremes, payloads 0..1 MiB incl. buffer-size boundaries, through real Wire.Write -> independent decoder (1-8 concurrent writers on one Wire) or independent encoder -> real Wire.Read, plus malformed streams; (b) matching - 1..256 goroutines on one real rpc.Client issue reads/writes/syncs/pings/unmaps with unique (offset,size), a scripted peer answers inside a bounded reorder window, with duplicates, unknown sequence numbers and per-request error replies, reply content = PRF of the request; (c) failure - as (b), the peer stalls for ever, answers one request 1.6 s late (deadline 1 s), closes, resets or sends garbage at a seeded request; (d) end-to-end - real rpc.Server over an in-memory store, 2-12 concurrent callers, history checked with porcupine against a register-per-block model; " +
+			"distinct = (scenario kind, concurrency, window, fault, reorder-distance class)",
+		Assumptions: []string{
+			"the scripted peer uses the harness's own implementation of the frame format (little endian header of 30 bytes)",
+			"read/write deadlines are set to 1 s through the production knobs types.RPCReadTimeout/RPCWriteTimeout + rpc.SetRPCTimeout(); 'promptly' is bounded by 30 s per call and 60 s per scenario (>= 20x deadline + the client's 2 s grace), decided on which calls returned errors, not on exact times",
+		},
+		Floor: map[string]int64{"rpc_calls": 10000, "codec_frames": 100, "failures_detected": 4, "e2e_operations": 1000},
+		Jobs: func(tier string) []Job {
+			return jobs("rpcsim", 16, tierN(tier, 8, 125), "tier="+tier, time.Duration(tierN(tier, 15, 120))*time.Minute)
+		},
+		CrashSig: func(last, log string) (string, string) {
+			c := jivaCrash(log)
+			if c == "" {
+				return "", ""
+			}
+			return "crash:" + crashClass(c), "the process running the rpc client/server died (" + c + ")"
+		},
+	},
 }
 
 func crashClass(c string) string {
